@@ -1,15 +1,31 @@
-"""Proof obligations per property: fully qualified theorem names in JP/Props/<ID>.lean
-(and the modules it imports).  OPEN lists the stated goals not yet proved; ASSUME the
-assumptions of the claim."""
+"""Proof obligations per property: {module: [fully qualified theorem names]}.  Each
+module is built and audited in its own environment (existence, theorem-hood, axioms).
+OPEN lists the stated goals not yet proved; ASSUME the assumptions of the claim."""
 
 THEOREMS = {
-    "C03": ["JP.C03.roundtrip", "JP.C03.roundtrip_strong", "JP.C03.empty_iff", "JP.C03.deletions_null", "JP.C03.additions_whole",
-            "JP.C03.minimal", "JP.C03.minimal_rec", "JP.C03.literals_from_target", "JP.C03.diff_nodupKeys", "JP.C03.diff_noDup"],
-    "C06": ["JP.C06.eqv_refl", "JP.C06.eqv_symm", "JP.C06.eqv_trans", "JP.C06.null_only_null", "JP.C06.null_only_null'",
-            "JP.C06.beq_imp_eq", "JP.C06.beq_imp_eqv"],
-    "C07": ["JP.C07.compose_law", "JP.C07.compose_law_strong", "JP.C07.compose_law_nonobject_eq", "JP.C07.nonobject_p2",
-            "JP.C07.compose_lookup", "JP.C07.later_overrides", "JP.C07.deletions_survive", "JP.C07.earlier_survives",
-            "JP.C07.nested_composed", "JP.C07.compose_nodupKeys", "JP.C07.compose_noDup"],
+    "C02": {
+        "JP.Props.C02": ["JP.C02.mergeNC_refines_eq", "JP.C02.mergeNC_refines", "JP.C02.mergeDocsC_refines", "JP.C02.pruneC_spec",
+                         "JP.C02.doMergePatch_refines", "JP.C02.mergePatch_value", "JP.C02.doMergePatch_errors"],
+    },
+    "C03": {
+        "JP.Props.C03spec": ["JP.C03.roundtrip", "JP.C03.roundtrip_strong", "JP.C03.empty_iff", "JP.C03.deletions_null",
+                             "JP.C03.additions_whole", "JP.C03.minimal", "JP.C03.minimal_rec", "JP.C03.literals_from_target",
+                             "JP.C03.diff_nodupKeys", "JP.C03.diff_noDup"],
+    },
+    "C06": {
+        "JP.Props.C06spec": ["JP.C06.eqv_refl", "JP.C06.eqv_symm", "JP.C06.eqv_trans", "JP.C06.null_only_null", "JP.C06.null_only_null'",
+                             "JP.C06.beq_imp_eq", "JP.C06.beq_imp_eqv"],
+        "JP.Props.C06": ["JP.C06.eqCC_iff", "JP.C06.eqNC_iff'", "JP.C06.eqNC_iff", "JP.C06.equal_iff", "JP.C06.malformed_false",
+                         "JP.C06.equal_spec", "JP.C06.eqCC_symm", "JP.C06.eqCC_refl", "JP.C06.eqCC_trans", "JP.C06.equal_symm'",
+                         "JP.C06.equal_trans'", "JP.C06.equal_refl"],
+    },
+    "C07": {
+        "JP.Props.C07spec": ["JP.C07.compose_law", "JP.C07.compose_law_strong", "JP.C07.compose_law_nonobject_eq", "JP.C07.nonobject_p2",
+                             "JP.C07.compose_lookup", "JP.C07.later_overrides", "JP.C07.deletions_survive", "JP.C07.earlier_survives",
+                             "JP.C07.nested_composed", "JP.C07.compose_nodupKeys", "JP.C07.compose_noDup"],
+        "JP.Props.C07impl": ["JP.C07.mergeNC_compose", "JP.C07.mergeNC_compose_eqv", "JP.C07.mergeDocsC_compose",
+                             "JP.C07.doMergePatch_true_refines"],
+    },
 }
 OPEN = {}
 ASSUME = {}
